@@ -34,6 +34,9 @@ for n in names:
         t0 = time.time()
         p = subprocess.run([os.path.join(root, "check"), pid, "--tier", tier], cwd=root, env=dict(os.environ, VERIF_REPO=wt, VERIF_EVIDENCE_DIR="/tmp/seedrun/evidence"), capture_output=True, text=True)
         viol = [l for l in p.stdout.split("\n") if l.startswith("VIOLATION")]
+        for l in p.stdout.split("\n"):  # remove only this run's kept directory (other checks may be running)
+            if "run directory kept:" in l:
+                shutil.rmtree(l.split("run directory kept:")[1].strip(), ignore_errors=True)
         caught = p.returncode == 1 and bool(viol)
         rec = {"tier": tier, "caught": caught, "exit": p.returncode, "violation_lines": viol[:4], "wall_s": round(time.time() - t0, 1),
                "verif_commit": subprocess.run(["git", "-C", root, "rev-parse", "--short", "HEAD"], capture_output=True, text=True).stdout.strip()}
@@ -43,6 +46,8 @@ for n in names:
     finally:
         subprocess.run(["git", "-C", "/repo", "worktree", "remove", "--force", wt], stdout=subprocess.DEVNULL, stderr=subprocess.DEVNULL)
 # leave Gen files as /repo itself defines them
-subprocess.run([os.path.join(root, ".build", "bin", "extract"), "-repo", "/repo", "-out", os.path.join(root, "lean", "ScionTime", "Gen")], stdout=subprocess.DEVNULL)
-shutil.rmtree(os.path.join(root, ".build", "run"), ignore_errors=True)  # run directories kept by violating runs
+import fcntl
+with open(os.path.join(root, ".build", "lake.lock"), "w") as _lk:  # same lock as ./check: never rewrite Gen under a running lake build
+    fcntl.flock(_lk, fcntl.LOCK_EX)
+    subprocess.run([os.path.join(root, ".build", "bin", "extract"), "-repo", "/repo", "-out", os.path.join(root, "lean", "ScionTime", "Gen")], stdout=subprocess.DEVNULL)
 for s in summary: print(*s)
